@@ -1,4 +1,5 @@
 import TongoProofs.Lemmas.PoolSMOutcomes
+import TongoProofs.Lemmas.PoolSelect
 /-! Invariants of `PoolSM`: soundness of the ghost log (every head offered to a waiter was stored by the connection
 named with it), nothing offered by the repaired notifySubscribers is lost, no nil dereference when a best connection
 exists (helper lemmas for C13). -/
@@ -22,14 +23,38 @@ theorem getD_set_ge (l : List Nat) (k v c : Nat) (h : l.getD k 0 < v) : l.getD c
 theorem getD_set_self (l : List Nat) (k v : Nat) (h : k < l.length) : (l.set k v).getD k 0 = v := by
   simp [List.getD_eq_getElem?_getD, List.getElem?_set, h]
 
+theorem ofNat_toNat_le (h : Nat) : (BitVec.ofNat 32 h).toNat ≤ h := by
+  simp only [BitVec.toNat_ofNat]; exact Nat.mod_le _ _
+
+theorem selectWith_mem {w : Bool} {st : PoolSelect.Strategy} {m : BitVec 32} {cs : List PoolSelect.Conn}
+    {c : PoolSelect.Conn} (h : PoolSelect.selectWith w st m cs = some c) : c ∈ cs := by
+  unfold PoolSelect.selectWith at h
+  cases st with
+  | other => cases h
+  | bestPing =>
+    rw [PoolSelect.findBestPing_eq] at h
+    obtain ⟨pre, post, hl, _, _⟩ := PoolSelect.firstMin_isFirstMin h
+    have : c ∈ cs.filter (fun c => c.alive && PoolSelect.working w m c) := by rw [hl]; simp
+    exact (List.mem_filter.mp this).1
+  | firstWorking =>
+    rw [PoolSelect.findFirstWorking_eq] at h
+    exact (List.mem_filter.mp (List.mem_of_head? h)).1
+
+/-- what the loops of updateBest have read so far: member `k`'s entry is a head member `k` had (heads only grow) -/
+def SnapOk (s : State) (seqs : List (BitVec 32)) (acc : List PoolSelect.Conn) : Prop :=
+  (∀ (k : Nat) (q : BitVec 32), seqs[k]? = some q → q.toNat ≤ s.heads.getD k 0) ∧
+  (∀ (k : Nat) (c : PoolSelect.Conn), acc[k]? = some c → c.id = k ∧ c.seqno.toNat ≤ s.heads.getD k 0)
+
 structure InvL (s : State) : Prop where
+  readOk : ∀ i seqs, s.run = .ubRead i seqs → seqs.length = i ∧ SnapOk s seqs []
+  selOk : ∀ i seqs acc, s.run = .ubSel i seqs acc → acc.length = i ∧ SnapOk s seqs acc
   connOk : ∀ (j : Nat) (x : Setter), s.setters[j]? = some x → x.conn < s.heads.length
   sendLe : ∀ (j : Nat) (x : Setter), s.setters[j]? = some x → (x.pc = .sendLocked ∨ x.pc = .sendUnlocked) →
     x.head ≤ s.heads.getD x.conn 0
   updLe : ∀ e ∈ s.upd, e.2 ≤ s.heads.getD e.1 0
-  wantLe : ∀ c h, s.run = .nWant c h → h ≤ s.heads.getD c 0
-  loopLe : ∀ h todo, s.run = .nLoop h todo → ∃ c, s.best = some c ∧ h ≤ s.heads.getD c 0
-  putLe : ∀ h h' w todo, s.run = .nPut h h' w todo → ∃ c, s.best = some c ∧ h ≤ s.heads.getD c 0
+  wantLe : ∀ c h, (s.run = .nWant c h ∨ s.run = .nCheck c h) → h ≤ s.heads.getD c 0
+  loopLe : ∀ sw h todo, s.run = .nLoop sw h todo → ∃ c, s.best = some c ∧ h ≤ s.heads.getD c 0
+  putLe : ∀ sw h h' w todo, s.run = .nPut sw h h' w todo → ∃ c, s.best = some c ∧ h ≤ s.heads.getD c 0
   logLe : ∀ e ∈ s.log, e.2.2 ≤ s.heads.getD e.2.1 0
 
 /-- the heads of the successor state dominate the old ones -/
@@ -40,55 +65,139 @@ theorem heads_mono {v s a s'} (hs : step v s a = some s') : ∀ c, s.heads.getD 
 theorem heads_length {v s a s'} (hs : step v s a = some s') : s'.heads.length = s.heads.length := by
   cases a <;> step_cases hs <;> simp [State.setW, State.setS]
 
+theorem snapOk_mono {s s' : State} {seqs acc} (hm : ∀ c, s.heads.getD c 0 ≤ s'.heads.getD c 0)
+    (h : SnapOk s seqs acc) : SnapOk s' seqs acc :=
+  ⟨fun k q hq => Nat.le_trans (h.1 k q hq) (hm k), fun k c hc => ⟨(h.2 k c hc).1, Nat.le_trans (h.2 k c hc).2 (hm k)⟩⟩
+
+theorem invL_readOk {v s a s'} (h : InvL s) (hs : step v s a = some s') :
+    ∀ i seqs, s'.run = .ubRead i seqs → seqs.length = i ∧ SnapOk s' seqs [] := by
+  have hm := heads_mono hs
+  have hro := h.readOk
+  intro i seqs hr
+  have key : (∃ j q, s.run = .ubRead j q ∧ ((j = i ∧ q = seqs) ∨
+      (i = j + 1 ∧ seqs = q ++ [BitVec.ofNat 32 (s.heads.getD j 0)] ∧ s'.heads = s.heads))) ∨
+      (i = 0 ∧ seqs = []) := by
+    cases a <;> step_cases hs <;> grind [State.setW, State.setS]
+  rcases key with ⟨j, q, hj, hcase⟩ | ⟨rfl, rfl⟩
+  · obtain ⟨hl, hok⟩ := hro j q hj
+    rcases hcase with ⟨rfl, rfl⟩ | ⟨rfl, rfl, hh⟩
+    · exact ⟨hl, snapOk_mono hm hok⟩
+    · refine ⟨by simp [hl], ?_, by intro k c hc; simp at hc⟩
+      intro k x hx
+      rw [hh]
+      by_cases hk : k < q.length
+      · rw [List.getElem?_append_left hk] at hx; exact hok.1 k x hx
+      · have : k = q.length := by
+          have := (List.getElem?_eq_some_iff.mp hx).1; simp at this; omega
+        subst this
+        simp at hx; subst hx; rw [hl]; exact ofNat_toNat_le _
+  · exact ⟨rfl, by intro k q hq; simp at hq, by intro k c hc; simp at hc⟩
+
+theorem invL_selOk {v s a s'} (h : InvL s) (hs : step v s a = some s') :
+    ∀ i seqs acc, s'.run = .ubSel i seqs acc → acc.length = i ∧ SnapOk s' seqs acc := by
+  have hm := heads_mono hs
+  have hro := h.readOk
+  have hso := h.selOk
+  intro i seqs acc hr
+  have key : (∃ j, s.run = .ubRead j seqs ∧ i = 0 ∧ acc = [] ∧ s'.heads = s.heads) ∨
+      (∃ j q, s.run = .ubSel j seqs q ∧ ((j = i ∧ q = acc) ∨
+        (i = j + 1 ∧ s'.heads = s.heads ∧ ∃ al rt sq, acc = q ++ [PoolSelect.Conn.mk j al sq rt] ∧
+          (sq = seqs.getD j 0 ∨ sq = BitVec.ofNat 32 (s.heads.getD j 0))))) := by
+    cases a <;> step_cases hs <;> grind [State.setW, State.setS]
+  rcases key with ⟨j, hj, rfl, rfl, hh⟩ | ⟨j, q, hj, hcase⟩
+  · obtain ⟨_, hok⟩ := hro j seqs hj
+    exact ⟨rfl, snapOk_mono hm hok⟩
+  · obtain ⟨hl, hok⟩ := hso j seqs q hj
+    rcases hcase with ⟨rfl, rfl⟩ | ⟨rfl, hh, al, rt, sq, rfl, hsq⟩
+    · exact ⟨hl, snapOk_mono hm hok⟩
+    · refine ⟨by simp [hl], by rw [hh]; exact hok.1, ?_⟩
+      intro k c hc
+      rw [hh]
+      by_cases hk : k < q.length
+      · rw [List.getElem?_append_left hk] at hc; exact hok.2 k c hc
+      · have : k = q.length := by
+          have := (List.getElem?_eq_some_iff.mp hc).1; simp at this; omega
+        subst this
+        simp at hc; subst hc
+        refine ⟨hl.symm, ?_⟩
+        rcases hsq with rfl | rfl
+        · simp only [List.getD_eq_getElem?_getD]
+          cases hq : seqs[j]? with
+          | none => simp
+          | some x => simpa [hl] using hok.1 j x hq
+        · rw [hl]; exact ofNat_toNat_le _
+
 theorem invL_connOk {v s a s'} (h : InvL s) (hs : step v s a = some s') :
     ∀ (j : Nat) (x : Setter), s'.setters[j]? = some x → x.conn < s'.heads.length := by
-  obtain ⟨connOk, sendLe, updLe, wantLe, loopLe, putLe, logLe⟩ := h
-  cases a <;> step_cases hs <;> grind [State.setW, State.setS]
+  obtain ⟨readOk, selOk, connOk, sendLe, updLe, wantLe, loopLe, putLe, logLe⟩ := h
+  cases a <;> step_cases hs <;> grind [State.setW, State.setS, RunPc.lockW, RunPc.lockR]
 
 theorem invL_sendLe {v s a s'} (h : InvL s) (hs : step v s a = some s') :
     ∀ (j : Nat) (x : Setter), s'.setters[j]? = some x → (x.pc = .sendLocked ∨ x.pc = .sendUnlocked) →
     x.head ≤ s'.heads.getD x.conn 0 := by
-  obtain ⟨connOk, sendLe, updLe, wantLe, loopLe, putLe, logLe⟩ := h
+  obtain ⟨readOk, selOk, connOk, sendLe, updLe, wantLe, loopLe, putLe, logLe⟩ := h
   have hm := heads_mono hs
-  cases a <;> step_cases hs <;> grind [State.setW, State.setS, getD_set_self]
+  cases a <;> step_cases hs <;> grind [State.setW, State.setS, RunPc.lockW, RunPc.lockR, getD_set_self]
 
 theorem invL_updLe {v s a s'} (h : InvL s) (hs : step v s a = some s') :
     ∀ e ∈ s'.upd, e.2 ≤ s'.heads.getD e.1 0 := by
-  obtain ⟨connOk, sendLe, updLe, wantLe, loopLe, putLe, logLe⟩ := h
+  obtain ⟨readOk, selOk, connOk, sendLe, updLe, wantLe, loopLe, putLe, logLe⟩ := h
   have hm := heads_mono hs
-  cases a <;> step_cases hs <;> grind [State.setW, State.setS]
+  cases a <;> step_cases hs <;> grind [State.setW, State.setS, RunPc.lockW, RunPc.lockR]
 
 theorem invL_wantLe {v s a s'} (h : InvL s) (hs : step v s a = some s') :
-    ∀ c h, s'.run = .nWant c h → h ≤ s'.heads.getD c 0 := by
-  obtain ⟨connOk, sendLe, updLe, wantLe, loopLe, putLe, logLe⟩ := h
+    ∀ c h, (s'.run = .nWant c h ∨ s'.run = .nCheck c h) → h ≤ s'.heads.getD c 0 := by
+  obtain ⟨readOk, selOk, connOk, sendLe, updLe, wantLe, loopLe, putLe, logLe⟩ := h
   have hm := heads_mono hs
-  cases a <;> step_cases hs <;> grind [State.setW, State.setS]
+  cases a <;> step_cases hs <;> grind [State.setW, State.setS, RunPc.lockW, RunPc.lockR]
 
 theorem invL_loopLe {v s a s'} (h : InvL s) (hs : step v s a = some s') :
-    ∀ h todo, s'.run = .nLoop h todo → ∃ c, s'.best = some c ∧ h ≤ s'.heads.getD c 0 := by
-  obtain ⟨connOk, sendLe, updLe, wantLe, loopLe, putLe, logLe⟩ := h
+    ∀ sw h todo, s'.run = .nLoop sw h todo → ∃ c, s'.best = some c ∧ h ≤ s'.heads.getD c 0 := by
+  have hso := h.selOk
+  obtain ⟨readOk, selOk, connOk, sendLe, updLe, wantLe, loopLe, putLe, logLe⟩ := h
   have hm := heads_mono hs
-  cases a <;> step_cases hs <;> grind [State.setW, State.setS]
+  cases a with
+  | ubSet =>
+    simp only [step] at hs
+    split at hs
+    · rename_i i seqs acc hrun
+      split at hs
+      · split at hs
+        · cases hs; intro sw h todo hr; cases hr
+        · rename_i c hsel
+          split at hs
+          · cases hs
+            intro sw h todo hr
+            cases hr
+            obtain ⟨k, hk⟩ := List.mem_iff_getElem?.mp (selectWith_mem hsel)
+            obtain ⟨hid, hle⟩ := (hso i seqs acc hrun).2.2 k c hk
+            exact ⟨c.id, rfl, by rw [hid]; exact hle⟩
+          · cases hs; intro sw h todo hr; cases hr
+      · cases hs
+    · cases hs
+  | _ => step_cases hs <;> grind [State.setW, State.setS, RunPc.lockW, RunPc.lockR]
 
 theorem invL_putLe {v s a s'} (h : InvL s) (hs : step v s a = some s') :
-    ∀ h h' w todo, s'.run = .nPut h h' w todo → ∃ c, s'.best = some c ∧ h ≤ s'.heads.getD c 0 := by
-  obtain ⟨connOk, sendLe, updLe, wantLe, loopLe, putLe, logLe⟩ := h
+    ∀ sw h h' w todo, s'.run = .nPut sw h h' w todo → ∃ c, s'.best = some c ∧ h ≤ s'.heads.getD c 0 := by
+  obtain ⟨readOk, selOk, connOk, sendLe, updLe, wantLe, loopLe, putLe, logLe⟩ := h
   have hm := heads_mono hs
-  cases a <;> step_cases hs <;> grind [State.setW, State.setS]
+  cases a <;> step_cases hs <;> grind [State.setW, State.setS, RunPc.lockW, RunPc.lockR]
 
 theorem invL_logLe {v s a s'} (h : InvL s) (hs : step v s a = some s') :
     ∀ e ∈ s'.log, e.2.2 ≤ s'.heads.getD e.2.1 0 := by
-  obtain ⟨connOk, sendLe, updLe, wantLe, loopLe, putLe, logLe⟩ := h
+  obtain ⟨readOk, selOk, connOk, sendLe, updLe, wantLe, loopLe, putLe, logLe⟩ := h
   have hm := heads_mono hs
-  cases a <;> step_cases hs <;> grind [State.setW, State.setS]
+  cases a <;> step_cases hs <;> grind [State.setW, State.setS, RunPc.lockW, RunPc.lockR]
 
 theorem invL_step {v s a s'} (h : InvL s) (hs : step v s a = some s') : InvL s' :=
-  ⟨invL_connOk h hs, invL_sendLe h hs, invL_updLe h hs, invL_wantLe h hs, invL_loopLe h hs, invL_putLe h hs,
+  ⟨invL_readOk h hs, invL_selOk h hs, invL_connOk h hs, invL_sendLe h hs, invL_updLe h hs, invL_wantLe h hs, invL_loopLe h hs, invL_putLe h hs,
    invL_logLe h hs⟩
 
-theorem invL_init (heads best targets pubs) (hp : ∀ p ∈ pubs, p.1 < heads.length) :
-    InvL (mkInit heads best targets pubs) := by
+theorem invL_init (heads best targets pubs st rtts) (hp : ∀ p ∈ pubs, p.1 < heads.length) :
+    InvL (mkInit heads best targets pubs st rtts) := by
   constructor
+  · intro i seqs hr; simp [mkInit] at hr
+  · intro i seqs acc hr; simp [mkInit] at hr
   · intro j x h
     simp only [mkInit, List.getElem?_map, Option.map_eq_some_iff] at h
     obtain ⟨p, hp', rfl⟩ := h
@@ -99,39 +208,39 @@ theorem invL_init (heads best targets pubs) (hp : ∀ p ∈ pubs, p.1 < heads.le
     simp at hpc
   · intro e he; simp [mkInit] at he
   · intro c h hr; simp [mkInit] at hr
-  · intro h todo hr; simp [mkInit] at hr
-  · intro h h' w todo hr; simp [mkInit] at hr
+  · intro sw h todo hr; simp [mkInit] at hr
+  · intro sw h h' w todo hr; simp [mkInit] at hr
   · intro e he; simp [mkInit] at he
 
 theorem reachable_invL {v s} (h : Reachable v s) : InvL s := by
   induction h with
-  | init heads best targets pubs hp => exact invL_init heads best targets pubs hp
+  | init heads best targets pubs st rtts hp hh => exact invL_init heads best targets pubs st rtts (fun p h => (hp p h).1)
   | step _ hs ih => exact invL_step ih hs
 
 /-- a log entry is appended only for the connection that is best at that very step -/
 theorem log_step {v s a s'} (hL : InvL s) (hs : step v s a = some s') :
     s'.log = s.log ∨ ∃ i c h, s'.log = s.log ++ [(i, c, h)] ∧ s.best = some c := by
   have loopLe := hL.loopLe
-  cases a <;> step_cases hs <;> grind [State.setW, State.setS]
+  cases a <;> step_cases hs <;> grind [State.setW, State.setS, RunPc.lockW, RunPc.lockR]
 
 /-! ### Group E: the repaired notifySubscribers loses nothing it offers -/
 
 /-- Run is between the draining and the sending select for waiter `i`'s channel, carrying a head `≥ m` -/
 def carriedGe (r : RunPc) (i m : Nat) : Bool :=
   match r with
-  | .nPut _ h' w _ => w == i && decide (m ≤ h')
+  | .nPut _ _ h' w _ => w == i && decide (m ≤ h')
   | _ => false
 
 structure InvE (s : State) : Prop where
-  putEmpty : ∀ h h' w todo, s.run = .nPut h h' w todo → ∀ x, s.waiters[w]? = some x → x.buf = []
+  putEmpty : ∀ sw h h' w todo, s.run = .nPut sw h h' w todo → ∀ x, s.waiters[w]? = some x → x.buf = []
   kept : ∀ (i : Nat) (w : Waiter), s.waiters[i]? = some w → w.pc = .sel → ∀ m, w.offered = some m →
     (∃ h ∈ w.buf, m ≤ h) ∨ carriedGe s.run i m = true ∨ (∃ h ∈ w.received, m ≤ h)
 
 theorem invE_putEmpty {v s a s'} (hA : InvA s) (h : InvE s) (hs : step v s a = some s') :
-    ∀ h h' w todo, s'.run = .nPut h h' w todo → ∀ x, s'.waiters[w]? = some x → x.buf = [] := by
+    ∀ sw h h' w todo, s'.run = .nPut sw h h' w todo → ∀ x, s'.waiters[w]? = some x → x.buf = [] := by
   obtain ⟨putEmpty, kept⟩ := h
   obtain ⟨l1, l2, l3, l4, vWl, vLoop, vPut, fresh, cap1⟩ := hA
-  cases a <;> step_cases hs <;> grind [State.setW, State.setS, WPc.registered]
+  cases a <;> step_cases hs <;> grind [State.setW, State.setS, RunPc.lockW, RunPc.lockR, WPc.registered]
 
 theorem invE_kept {v s a s'} (hA : InvA s) (h : InvE s) (hs : step v s a = some s') :
     ∀ (i : Nat) (w : Waiter), s'.waiters[i]? = some w → w.pc = .sel → ∀ m, w.offered = some m →
@@ -139,19 +248,19 @@ theorem invE_kept {v s a s'} (hA : InvA s) (h : InvE s) (hs : step v s a = some 
   obtain ⟨putEmpty, kept⟩ := h
   have fresh := hA.fresh
   have cap1 := hA.cap1
-  cases a <;> step_cases hs <;> grind [State.setW, State.setS, carriedGe]
+  cases a <;> step_cases hs <;> grind [State.setW, State.setS, RunPc.lockW, RunPc.lockR, carriedGe]
 
 theorem invE_step {v s a s'} (hA : InvA s) (h : InvE s) (hs : step v s a = some s') : InvE s' :=
   ⟨invE_putEmpty hA h hs, invE_kept hA h hs⟩
 
-theorem invE_init (heads best targets pubs) : InvE (mkInit heads best targets pubs) := by
+theorem invE_init (heads best targets pubs st rtts) : InvE (mkInit heads best targets pubs st rtts) := by
   constructor
-  · intro h h' w todo hr; simp [mkInit] at hr
+  · intro sw h h' w todo hr; simp [mkInit] at hr
   · intro i w h hp; have := mkInit_waiter h; simp [this.1] at hp
 
 theorem reachable_invE {v s} (h : Reachable v s) : InvE s := by
   induction h with
-  | init heads best targets pubs hp => exact invE_init ..
+  | init heads best targets pubs st rtts hp hh => exact invE_init ..
   | step hr hs ih => exact invE_step (reachable_invA hr) ih hs
 
 /-! ### Group P: with a best connection present nobody dereferences nil -/
@@ -163,8 +272,8 @@ theorem noPanic_step {v s a s'} (hO : InvO s)
   obtain ⟨hb, hw⟩ := h
   have nlp := hO.noLeavePanic
   constructor
-  · cases a <;> step_cases hs <;> grind [State.setW, State.setS]
-  · cases a <;> step_cases hs <;> grind [State.setW, State.setS]
+  · cases a <;> step_cases hs <;> grind [State.setW, State.setS, RunPc.lockW, RunPc.lockR]
+  · cases a <;> step_cases hs <;> grind [State.setW, State.setS, RunPc.lockW, RunPc.lockR]
 
 theorem noPanic_trace {v : Variant} (as : List Action) : ∀ {s0 s : State}, Reachable v s0 →
     (s0.best ≠ none ∧ ∀ (i : Nat) (w : Waiter), s0.waiters[i]? = some w → w.pc ≠ .done .panic) →
